@@ -89,6 +89,11 @@ def one_seeded(d, suite):
     if meta.get("not_a_violation"):
         # re-examined after collection: the change has no effect on anything the property observes
         return {"id": os.path.basename(d), "property": meta["property"], "status": "not_a_violation", "why": meta["not_a_violation"]["why"][:200]}
+    if meta.get("outside_armed_domain"):
+        # a demonstrated violation on an input the checks deliberately do not arm on (reason in meta.json and DESIGN 8.3): reported as
+        # not detected, never counted as detected
+        return {"id": os.path.basename(d), "property": meta["property"], "status": "outside_armed_domain", "detected": False,
+                "why": meta["outside_armed_domain"]["why"][:300]}
     if meta.get("superseded"):
         # a later fix: commit made this change harmless on the current tree; kept for the record only
         return {"id": os.path.basename(d), "property": meta["property"], "status": "superseded", "superseded": meta["superseded"]}
